@@ -145,6 +145,10 @@ type Scenario struct {
 	Remote bool
 	// Tiers in which the scenario runs (nil = both).
 	Tiers []string
+	// Nondet: the code under test contains nondeterminism the harness cannot own (Go map iteration);
+	// re-runs of one vector must still agree on choice points and failure signatures, but may differ in
+	// state keys and outcome class.
+	Nondet bool
 }
 
 // Suite is one check: a property, a list of scenarios, one evidence file.
@@ -429,16 +433,16 @@ func vecKey(v []int) string {
 	return sb.String()
 }
 
-func sameObservation(a, b Result) string {
+func sameObservation(a, b Result, nondet bool) string {
 	if len(a.Points) != len(b.Points) {
 		return fmt.Sprintf("points %d vs %d", len(a.Points), len(b.Points))
 	}
 	for i := range a.Points {
-		if a.Points[i].L != b.Points[i].L || a.Points[i].N != b.Points[i].N || a.Points[i].K != b.Points[i].K {
+		if a.Points[i].L != b.Points[i].L || a.Points[i].N != b.Points[i].N || (a.Points[i].K != b.Points[i].K && !nondet) {
 			return fmt.Sprintf("point %d: %v vs %v", i, a.Points[i], b.Points[i])
 		}
 	}
-	if a.Outcome != b.Outcome {
+	if a.Outcome != b.Outcome && !nondet {
 		return fmt.Sprintf("outcome %q vs %q", a.Outcome, b.Outcome)
 	}
 	if sigs(a) != sigs(b) {
@@ -843,7 +847,7 @@ func (s *Suite) explore(sc *Scenario, tier string, seed int64, deadline time.Tim
 					if last.Harness != "" {
 						break
 					}
-					if d := sameObservation(res, last); d != "" {
+					if d := sameObservation(res, last, sc.Nondet); d != "" {
 						unstable = true
 						if !bad {
 							// a passing execution that is not reproducible is a harness defect
